@@ -1,4 +1,240 @@
-import NriModel.Basic
-/-! Property theorems for C12 — placeholder until the model is written. -/
+import NriModel.Wire
+import NriModel.Extracted.ApiSchema
+import NriModel.Lemmas.WireProps
+import NriModel.Lemmas.WireOrder
+import NriModel.Lemmas.WireBytes
+import NriModel.Lemmas.WireDecodeWT
+import NriModel.Lemmas.WireMerge
+/-!
+Property theorems for C12 — both wire encodings of every protocol message agree.
+
+What is proved here is about the *reference codec* `Nri.Wire` (encode / decode / size,
+generic in the schema) and its instantiation to the schema regenerated from the descriptor
+compiled into `pkg/api/api.pb.go`. The two generated Go codecs are tied to this reference
+codec by the correspondence run (both directions); their 12 640 generated lines are not
+themselves verified.
+
+Normal form of values: a message value is the list of its field values in schema order;
+a proto3 implicit-presence field (scalar, string) that is zero/empty *is* the absent field
+(nothing is written, nothing needs to be read), a repeated field or map with no element is
+the absent one, and only a singular message field has presence (`Val.none` vs `Val.msg _`).
+-/
 namespace Nri.Props.C12
+open Nri.Wire Nri.Wire.Extracted
+
+/-- a small schema for the non-vacuity examples (the generated one is re-indexed whenever
+    api.proto changes): `Inner {int64 value = 1}`,
+    `Outer {string id = 1; Inner opt = 2; repeated Inner items = 3; map<string,string> labels = 4;
+            repeated string args = 5; int32 code = 6; bool flag = 7}` -/
+def demo : Schema := [
+  { name := "Inner", fields := [ { name := "value", num := 1, ty := .scalar .int64 } ] },
+  { name := "Outer", fields := [
+      { name := "id", num := 1, ty := .string },
+      { name := "opt", num := 2, ty := .msg 0 },
+      { name := "items", num := 3, ty := .repMsg 0 },
+      { name := "labels", num := 4, ty := .mapSS },
+      { name := "args", num := 5, ty := .repString },
+      { name := "code", num := 6, ty := .scalar .int32 },
+      { name := "flag", num := 7, ty := .scalar .bool } ] } ]
+
+/-- `Outer{id:"a", opt:&Inner{}, items:[{-1},{}], labels:{"k":"v"}, args:["","x"], code:-2, flag:true}` -/
+def demoVal : List Val :=
+  [.str [97], .msg [.int 0], .list [.msg [.int (-1)], .msg [.int 0]], .smap [([107], [118])],
+   .strs [[], [120]], .int (-2), .int 1]
+
+/-- Varints of 64-bit quantities round trip, whatever follows them. -/
+theorem varint_roundtrip (n : Nat) (h : n < 2 ^ 64) (r : Bytes) :
+    decodeVarint (encodeVarint n ++ r) = some (n, r) :=
+  decodeVarint_encodeVarint n r h
+
+example : decodeVarint (encodeVarint (2 ^ 64 - 1) ++ [7]) = some (2 ^ 64 - 1, [7]) := by decide
+example : encodeVarint 300 = [172, 2] := by decide
+
+/-- The regenerated schema of `pkg/api` is well-formed (legal, distinct field numbers; only
+    modelled field kinds; every message reference resolves) — so every generic theorem
+    below applies to every message type of the descriptor. Re-decided on every run. -/
+theorem schema_wf : apiSchema.WF = true := by decide
+
+/-- …and the generator met nothing outside the model. -/
+theorem schema_supported : unsupportedFeatures = [] := by decide
+
+/-- **Round trip**: for every well-formed schema, every message type and every well-typed
+    value, decoding the encoding returns the value. (`hlen`: length prefixes are 64-bit.) -/
+theorem C12_roundtrip (S : Schema) (hS : S.WF = true) (m : Nat) (v : List Val)
+    (hv : WellTyped S m v = true) (hlen : (encode S m v).length < 2 ^ 64) :
+    decode S m (encode S m v) = some v :=
+  decode_encode S hS m v hv hlen
+
+example : demo.WF = true := by decide
+example : WellTyped demo 1 demoVal = true := by decide
+example : (encode demo 1 demoVal).length < 2 ^ 64 := by decide
+example : decode demo 1 (encode demo 1 demoVal) = some demoVal :=
+  C12_roundtrip demo (by decide) 1 demoVal (by decide) (by decide)
+
+/-- the same, for every message type of the nri protocol -/
+theorem C12_roundtrip_api (m : Nat) (v : List Val) (hv : WellTyped apiSchema m v = true)
+    (hlen : (encode apiSchema m v).length < 2 ^ 64) :
+    decode apiSchema m (encode apiSchema m v) = some v :=
+  C12_roundtrip apiSchema schema_wf m v hv hlen
+
+-- some message type of the real schema is a one-field signed wrapper (OptionalInt & co); −1 in
+-- it is well-typed and takes the ten-byte sign-extended varint
+example : ∃ m, m < apiSchema.length ∧ WellTyped apiSchema m [.int (-1)] = true ∧
+    encode apiSchema m [.int (-1)] = [8, 255, 255, 255, 255, 255, 255, 255, 255, 255, 1] := by decide
+
+/-- **Size**: the size computed field by field (what `SizeVT` does) is the number of bytes
+    the encoder writes — for every schema and every value, typed or not. -/
+theorem C12_size (S : Schema) (m : Nat) (v : List Val) : (encode S m v).length = size S m v :=
+  encode_length S m v
+
+example : size demo 1 demoVal = 46 ∧ (encode demo 1 demoVal).length = 46 := by decide
+
+/-- Bytes are modelled as natural numbers; the encoder only ever writes numbers below 256. -/
+theorem C12_bytes (S : Schema) (hS : S.WF = true) (m : Nat) (v : List Val)
+    (hv : WellTyped S m v = true) (hlen : (encode S m v).length < 2 ^ 64) :
+    ∀ b ∈ encode S m v, b < 256 :=
+  encode_allLt S hS m v hv hlen
+
+example : ∀ b ∈ encode demo 1 demoVal, b < 256 :=
+  C12_bytes demo (by decide) 1 demoVal (by decide) (by decide)
+
+/-- No two distinct well-typed values share an encoding. -/
+theorem C12_injective (S : Schema) (hS : S.WF = true) (m : Nat) (v w : List Val)
+    (hv : WellTyped S m v = true) (hw : WellTyped S m w = true)
+    (hlv : (encode S m v).length < 2 ^ 64) (h : encode S m v = encode S m w) : v = w := by
+  have h1 := C12_roundtrip S hS m v hv hlv
+  have h2 := C12_roundtrip S hS m w hw (h ▸ hlv)
+  rw [h] at h1
+  exact Option.some.inj (h1.symm.trans h2)
+
+/-- **Presence**: in every message, an absent singular message field and the same field
+    present with all-default content are different values, have different encodings, and
+    decode back to the two different values. -/
+theorem C12_presence (S : Schema) (hS : S.WF = true) (m : Nat) (v : List Val) (i : Nat)
+    (f : Field) (m' : Nat) (hv : WellTyped S m v = true)
+    (hf : (S.fieldsOf m)[i]? = some f) (hty : f.ty = .msg m')
+    (h0 : (encode S m (v.set i .none)).length < 2 ^ 64)
+    (h1 : (encode S m (v.set i (.msg (emptyMsg S m')))).length < 2 ^ 64) :
+    let absent := v.set i .none
+    let present := v.set i (.msg (emptyMsg S m'))
+    decode S m (encode S m absent) = some absent ∧
+    decode S m (encode S m present) = some present ∧
+    decode S m (encode S m absent) ≠ decode S m (encode S m present) ∧
+    encode S m absent ≠ encode S m present := by
+  intro absent present
+  have hi : i < v.length := by
+    have := wtFields_length S _ _ hv
+    have := (List.getElem?_eq_some_iff.mp hf).1
+    omega
+  have wa : WellTyped S m absent = true :=
+    wtFields_set S _ v i f .none hv hf (by simp [hty, wtVal])
+  have wp : WellTyped S m present = true :=
+    wtFields_set S _ v i f _ hv hf (by
+      simp only [hty, wtVal]; exact wellTyped_emptyMsg S hS m')
+  have ra := C12_roundtrip S hS m absent wa h0
+  have rp := C12_roundtrip S hS m present wp h1
+  have hne : absent ≠ present := by
+    intro e
+    have := congrArg (fun l => l[i]?) e
+    simp [absent, present, hi] at this
+  refine ⟨ra, rp, ?_, ?_⟩
+  · rw [ra, rp]; exact fun e => hne (Option.some.inj e)
+  · intro e; rw [e, rp] at ra; exact hne (Option.some.inj ra).symm
+
+example : encode demo 1 (demoVal.set 1 .none) ≠ encode demo 1 (demoVal.set 1 (.msg (emptyMsg demo 0))) :=
+  (C12_presence demo (by decide) 1 demoVal 1 { name := "opt", num := 2, ty := .msg 0 } 0 (by decide) rfl rfl (by decide) (by decide)).2.2.2
+example : encode demo 1 [.str [], .msg [.int 0], .list [], .smap [], .strs [], .int 0, .int 0] = [18, 0] := by
+  decide
+example : encode demo 1 [.str [], .none, .list [], .smap [], .strs [], .int 0, .int 0] = [] := by decide
+
+/-- Whatever bytes it is given, the decoder returns only well-typed values: every scalar
+    within the range of its Go type (`int32(v)`, `uint32(v)`, `v != 0` truncations), every
+    string valid UTF-8, map keys distinct, every nested message of the shape of its schema.
+    Hence what it returns re-encodes and decodes to itself (`decode ∘ encode ∘ decode = decode`):
+    non-minimal varints, reordered or split records are normalised away. -/
+theorem C12_decode_welltyped (S : Schema) (hS : S.WF = true) (m : Nat) (bs : Bytes) (v : List Val)
+    (hb : ∀ b ∈ bs, b < 256) (h : decode S m bs = some v) :
+    WellTyped S m v = true ∧
+    ((encode S m v).length < 2 ^ 64 → decode S m (encode S m v) = some v) := by
+  have hw := decode_wt S hS m bs v hb h
+  exact ⟨hw, C12_roundtrip S hS m v hw⟩
+
+-- Outer{ code: 5 written as the padded varint 85 00, then flag twice (last wins) }
+example : decode demo 1 [48, 133, 0, 56, 0, 56, 1] =
+    some [.str [], .none, .list [], .smap [], .strs [], .int 5, .int 1] := by rfl
+-- an int32 field given a 64-bit varint keeps the low 32 bits, as Go's int32(v) does
+example : decode demo 1 [48, 255, 255, 255, 255, 31] =
+    some [.str [], .none, .list [], .smap [], .strs [], .int (-1), .int 0] := by rfl
+
+/-- **Concatenation = merge**: decoding the encoding of `a` followed by the encoding of `b`
+    yields `merge a b` (set scalars and strings of `b` overwrite, unset ones keep `a`'s,
+    repeated fields append, maps assign key by key, message fields merge recursively) — what
+    both Go decoders do when one message arrives split over several records or byte strings
+    (`UnmarshalVT` never resets its receiver). Merging into the empty message is the identity. -/
+theorem C12_concat (S : Schema) (hS : S.WF = true) (m : Nat) (a b : List Val)
+    (ha : WellTyped S m a = true) (hb : WellTyped S m b = true)
+    (hlen : (encode S m a ++ encode S m b).length < 2 ^ 64) :
+    decode S m (encode S m a ++ encode S m b) = some (merge S m a b) ∧
+    merge S m (emptyMsg S m) b = b := by
+  refine ⟨decode_append S hS m a b ha hb hlen, ?_⟩
+  have hlb : (encode S m b).length < 2 ^ 64 := by simp only [List.length_append] at hlen; omega
+  have h1 := decMsg_encode_merge S hS m (emptyMsg S m) b (wellTyped_emptyMsg S hS m) hb hlb
+    (encode S m b).length (Nat.le_refl _)
+  have h2 := C12_roundtrip S hS m b hb hlb
+  unfold decode at h2
+  rw [h2] at h1
+  exact (Option.some.inj h1).symm
+
+-- Outer{id:"a", opt:{5}, items:[{-1}], code:3} ++ Outer{opt:{} , items:[{1}], labels:{k:v}, code:7}
+example : decode demo 1
+      (encode demo 1 [.str [97], .msg [.int 5], .list [.msg [.int (-1)]], .smap [], .strs [], .int 3, .int 0] ++
+       encode demo 1 [.str [], .msg [.int 0], .list [.msg [.int 1]], .smap [([107], [118])], .strs [], .int 7, .int 0])
+    = some [.str [97], .msg [.int 5], .list [.msg [.int (-1)], .msg [.int 1]], .smap [([107], [118])],
+            .strs [], .int 7, .int 0] :=
+  (C12_concat demo (by decide) 1 _ _ (by decide) (by decide) (by decide)).1
+
+/-- **Field order is free**: the records of the fields of a message, written in any order
+    of the fields (the records of one repeated field or map kept together), decode to the
+    value. (Both Go encoders write ascending field numbers; a conforming peer need not.) -/
+theorem C12_order_free (S : Schema) (hS : S.WF = true) (m : Nat) (v : List Val)
+    (hv : WellTyped S m v = true) (π : List (Field × Val))
+    (hπ : π.Perm ((S.fieldsOf m).zip v))
+    (hlen : (π.flatMap fun p => encField S p.1 p.2).length < 2 ^ 64) :
+    decode S m (π.flatMap fun p => encField S p.1 p.2) = some v :=
+  decode_perm S hS m v hv π hπ hlen
+
+example : decode demo 1 ((((demo.fieldsOf 1).zip demoVal).reverse).flatMap fun p => encField demo p.1 p.2)
+    = some demoVal :=
+  C12_order_free demo (by decide) 1 demoVal (by decide) _ (List.reverse_perm _) (by decide)
+
+/-- **Map entry order is free**: `MarshalVT` walks Go maps in random order. Whatever order
+    `l'` of the entries `l` of a map field ends up on the wire, the bytes decode (to the map
+    in that order), and both orders answer every lookup alike. -/
+theorem C12_map_order (S : Schema) (hS : S.WF = true) (m : Nat) (v : List Val) (i : Nat) (f : Field)
+    (l l' : List (Bytes × Bytes)) (hv : WellTyped S m v = true)
+    (hf : (S.fieldsOf m)[i]? = some f) (hty : f.ty = .mapSS) (hvi : v[i]? = some (.smap l))
+    (hp : l'.Perm l) (hlen : (encode S m (v.set i (.smap l'))).length < 2 ^ 64) :
+    decode S m (encode S m (v.set i (.smap l'))) = some (v.set i (.smap l')) ∧
+    ∀ k, AList.lookup l' k = AList.lookup l k := by
+  have hwl : wtVal S f.ty (.smap l) = true := by
+    obtain ⟨hi, hx⟩ := List.getElem?_eq_some_iff.mp hvi
+    have hz : (f, Val.smap l) ∈ (S.fieldsOf m).zip v := by
+      rw [List.mem_iff_getElem?]
+      exact ⟨i, by rw [List.getElem?_zip_eq_some]; exact ⟨hf, hvi⟩⟩
+    exact wtFields_zip S _ _ hv _ hz
+  simp only [hty, wtVal, Bool.and_eq_true, decide_eq_true_eq] at hwl
+  have hwl' : wtVal S f.ty (.smap l') = true := by
+    simp only [hty, wtVal, Bool.and_eq_true, decide_eq_true_eq]
+    refine ⟨?_, (hp.map _).nodup_iff.mpr hwl.2⟩
+    rw [List.all_eq_true] at hwl ⊢
+    exact fun e he => hwl.1 e (hp.mem_iff.mp he)
+  exact ⟨C12_roundtrip S hS m _ (wtFields_set S _ v i f _ hv hf hwl') hlen,
+    lookup_perm l l' hp hwl.2⟩
+
+example : decode demo 1 (encode demo 1 (demoVal.set 3 (.smap [([122], []), ([107], [118])])))
+    = some (demoVal.set 3 (.smap [([122], []), ([107], [118])])) := by
+  refine (C12_map_order demo (by decide) 1 (demoVal.set 3 (.smap [([107], [118]), ([122], [])])) 3
+    { name := "labels", num := 4, ty := .mapSS } [([107], [118]), ([122], [])] [([122], []), ([107], [118])]
+    (by decide) rfl rfl rfl (List.Perm.swap _ _ _) (by decide)).1
+
 end Nri.Props.C12
